@@ -48,13 +48,14 @@ type Engine struct {
 	havocAllSeen bool
 	needStrExt bool
 	preds map[string]*predDef
+	depPkgs map[string]*packages.Package
 	predDecls []string
 	overlay map[string][]byte
 }
 
 func newEngine(repoDir string) *Engine {
 	return &Engine{repoDir: repoDir, pkgs: map[string]*packages.Package{}, contracts: newContractSet(), sc: newSortCtx(),
-		strs: map[string]string{}, globals: map[string]*types.Var{}, gaddrs: map[string]bool{}, funcRefs: map[string]bool{}, dynTags: map[string]bool{}, dynVals: map[string]string{}, funcLits: map[string]*ast.FuncLit{}, ufuns: map[string]*UFun{}, mapLenKeys: map[string]string{}, mutatedGlobals: map[types.Object]bool{}, assignedGlobals: map[types.Object]bool{}, preds: map[string]*predDef{}}
+		strs: map[string]string{}, globals: map[string]*types.Var{}, gaddrs: map[string]bool{}, funcRefs: map[string]bool{}, dynTags: map[string]bool{}, dynVals: map[string]string{}, funcLits: map[string]*ast.FuncLit{}, ufuns: map[string]*UFun{}, mapLenKeys: map[string]string{}, mutatedGlobals: map[types.Object]bool{}, assignedGlobals: map[types.Object]bool{}, preds: map[string]*predDef{}, depPkgs: map[string]*packages.Package{}}
 }
 
 func writeExpr(w io.Writer, fset *token.FileSet, e ast.Node) {
@@ -74,11 +75,13 @@ func (eng *Engine) load(patterns []string) error {
 		return err
 	}
 	seen := map[*types.Package]bool{}
+	var depContracts []*packages.Package
 	var walk func(p *packages.Package)
 	walk = func(p *packages.Package) {
 		if p.Types != nil && !seen[p.Types] {
 			seen[p.Types] = true
 			eng.allTypes = append(eng.allTypes, p.Types)
+			depContracts = append(depContracts, p)
 			for _, ip := range p.Imports {
 				walk(ip)
 			}
@@ -90,14 +93,6 @@ func (eng *Engine) load(patterns []string) error {
 		}
 		eng.pkgs[p.PkgPath] = p
 		walk(p)
-		// contracts
-		for _, f := range p.GoFiles {
-			if filepath.Base(f) == "zz_contracts_verif.go" {
-				if err := eng.contracts.loadContractFile(f, p.PkgPath); err != nil {
-					return err
-				}
-			}
-		}
 		// assignments to package-level variables (for immutability of globals)
 		for _, f := range p.Syntax {
 			ast.Inspect(f, func(n ast.Node) bool {
@@ -115,6 +110,33 @@ func (eng *Engine) load(patterns []string) error {
 				}
 				return true
 			})
+		}
+	}
+	// contracts of the loaded packages and of every dependency that carries a sidecar
+	loaded := map[string]bool{}
+	for _, f := range eng.contracts.Files {
+		loaded[f] = true
+	}
+	for _, p := range depContracts {
+		for _, f := range p.GoFiles {
+			if filepath.Base(f) == "zz_contracts_verif.go" && !loaded[f] {
+				loaded[f] = true
+				if err := eng.contracts.loadContractFile(f, p.PkgPath); err != nil {
+					return err
+				}
+			}
+		}
+		if _, isRoot := eng.pkgs[p.PkgPath]; !isRoot && len(p.Syntax) > 0 {
+			eng.depPkgs[p.PkgPath] = p
+		}
+	}
+	for _, u := range eng.contracts.UFuns {
+		if _, ok := eng.ufuns[u.Name]; !ok {
+			uf := &UFun{Name: "uf." + u.Name, Ret: ghostSort(u.Ret)}
+			for _, a := range u.Args {
+				uf.Args = append(uf.Args, ghostSort(a))
+			}
+			eng.ufuns[u.Name] = uf
 		}
 	}
 	return nil
@@ -256,7 +278,11 @@ func (eng *Engine) findFunc(p *packages.Package, key string) (*ast.FuncDecl, *ty
 // ---------------- per-function verification ----------------
 
 func (eng *Engine) verifyFunc(p *packages.Package, key string) (*FuncVerifier, error) {
-	fd, fo := eng.findFunc(p, key)
+	fkey := key
+	if i := strings.Index(key, "@"); i >= 0 {
+		fkey = key[:i]
+	}
+	fd, fo := eng.findFunc(p, fkey)
 	if fd == nil {
 		return nil, fmt.Errorf("function %s not found in %s", key, p.PkgPath)
 	}
@@ -264,7 +290,7 @@ func (eng *Engine) verifyFunc(p *packages.Package, key string) (*FuncVerifier, e
 	fv := &FuncVerifier{eng: eng, pkg: p, decl: fd, fnObj: fo, contract: c, name: p.Types.Name() + "." + key,
 		closures: map[types.Object]*ast.FuncLit{}, boxed: map[types.Object]bool{}, occ: map[string]int{}, callOcc: map[string]int{}}
 	if c == nil {
-		fv.contract = &Contract{Key: key, Pkg: p.PkgPath, Loops: map[int]*LoopSpec{}, Flags: map[string]string{}, CallGhost: map[string]map[string]ast.Expr{}, Asserts: map[string][]Clause{}}
+		fv.contract = &Contract{Key: key, Pkg: p.PkgPath, Loops: map[int]*LoopSpec{}, Flags: map[string]string{}, CallGhost: map[string]map[string]ast.Expr{}, Asserts: map[string][]Clause{}, Befores: map[string][]Clause{}}
 		fv.modsAny = true
 	}
 	if fv.contract.Flags["noframe"] != "" {
@@ -326,6 +352,13 @@ func (eng *Engine) verifyFunc(p *packages.Package, key string) (*FuncVerifier, e
 		fv.entry.ghost[g.Name] = st.ghost[g.Name]
 		fv.ghostIn = append(fv.ghostIn, inputVar{Name: g.Name, Term: n})
 	}
+	// ghost clock (time.Now() never goes backwards)
+	{
+		c0 := fv.fresh("clock0", "Int")
+		fv.assumeGlobal("(>= " + c0 + " 0)")
+		st.ghost["$clock"] = Val{T: c0, Sort: "Int"}
+		fv.entry.ghost["$clock"] = st.ghost["$clock"]
+	}
 	// global ghost variables
 	for _, g := range eng.contracts.GhostOrder {
 		n := fv.fresh("gv_"+g, ghostSort(eng.contracts.GhostVars[g]))
@@ -353,7 +386,19 @@ func (eng *Engine) verifyFunc(p *packages.Package, key string) (*FuncVerifier, e
 	}
 	fv.nEntry = len(fv.assumes)
 	fv.frames = []*frameCtx{fr}
-	fv.execBlock(st, fd.Body.List)
+	body := fd.Body.List
+	if fv.contract.Region != "" {
+		rb, dropped, err := findRegion(fd.Body, fv.contract.Region)
+		if err != nil {
+			return nil, fmt.Errorf("%s: region %q: %v", key, fv.contract.Region, err)
+		}
+		body = rb
+		fv.note("region " + fv.contract.Region + " of " + fkey + " verified in isolation (entry state arbitrary); dropped around it: " + strings.Join(dropped, ", "))
+		if len(rb) > 0 {
+			fv.specPos = rb[len(rb)-1].End()
+		}
+	}
+	fv.execBlock(st, body)
 	if !st.dead {
 		fv.curPos = fd.Body.Rbrace
 		fv.doReturn(st, fr, nil, nil)
@@ -596,4 +641,92 @@ func (fv *FuncVerifier) lockTerm(st *State, path string) string {
 	}
 	st.locks[path] = n
 	return n
+}
+
+// findRegion resolves a structural path like "for#0/select#0/case#0" to a statement list.
+func findRegion(body *ast.BlockStmt, path string) ([]ast.Stmt, []string, error) {
+	var cur ast.Node = body
+	var dropped []string
+	for _, step := range strings.Split(path, "/") {
+		parts := strings.SplitN(step, "#", 2)
+		kind := parts[0]
+		k := 0
+		if len(parts) == 2 {
+			fmt.Sscanf(parts[1], "%d", &k)
+		}
+		var found ast.Node
+		n := 0
+		if kind == "case" {
+			var list []ast.Stmt
+			switch x := cur.(type) {
+			case *ast.SelectStmt:
+				list = x.Body.List
+			case *ast.SwitchStmt:
+				list = x.Body.List
+			case *ast.TypeSwitchStmt:
+				list = x.Body.List
+			default:
+				return nil, nil, fmt.Errorf("case outside select/switch")
+			}
+			if k >= len(list) {
+				return nil, nil, fmt.Errorf("no case #%d", k)
+			}
+			found = list[k]
+		} else {
+			ast.Inspect(cur, func(nd ast.Node) bool {
+				if found != nil || nd == nil || nd == cur {
+					return found == nil
+				}
+				match := false
+				switch nd.(type) {
+				case *ast.ForStmt:
+					match = kind == "for"
+				case *ast.RangeStmt:
+					match = kind == "range"
+				case *ast.SelectStmt:
+					match = kind == "select"
+				case *ast.SwitchStmt:
+					match = kind == "switch"
+				case *ast.IfStmt:
+					match = kind == "if"
+				case *ast.GoStmt:
+					match = kind == "go"
+				case *ast.FuncLit:
+					match = kind == "funclit"
+				}
+				if match {
+					if n == k {
+						found = nd
+						return false
+					}
+					n++
+				}
+				return true
+			})
+		}
+		if found == nil {
+			return nil, nil, fmt.Errorf("step %s not found", step)
+		}
+		dropped = append(dropped, fmt.Sprintf("%T", cur))
+		cur = found
+	}
+	switch x := cur.(type) {
+	case *ast.CommClause:
+		return x.Body, dropped, nil
+	case *ast.CaseClause:
+		return x.Body, dropped, nil
+	case *ast.ForStmt:
+		return x.Body.List, dropped, nil
+	case *ast.RangeStmt:
+		return x.Body.List, dropped, nil
+	case *ast.IfStmt:
+		return x.Body.List, dropped, nil
+	case *ast.FuncLit:
+		return x.Body.List, dropped, nil
+	case *ast.GoStmt:
+		if fl, ok := x.Call.Fun.(*ast.FuncLit); ok {
+			return fl.Body.List, dropped, nil
+		}
+	}
+	return nil, nil, fmt.Errorf("path does not end in a block")
 }
